@@ -219,7 +219,45 @@ def pred_atom(c):
 
 
 def is_tolpred(c):
-    return pred_atom(c) is not None
+    return pred_atom(c) is not None or compound_pred(c) is not None
+
+
+def compound_pred(c):
+    """the fork-predicate atoms of c when c is built from such atoms only (and / or / not of tolerance or quantified
+    predicates, e.g. all(np.allclose(h, h[0]) for h in sizes)); else None"""
+    from .alg import Rat as _R, _ATOM_KEY
+    if not isinstance(c, _R) or c.is_const():
+        return None
+    try:
+        ats = list(c.atoms())
+    except Exception:
+        return None
+    keys = []
+    for a in ats:
+        k = _ATOM_KEY[a]
+        if not (isinstance(k, tuple) and k and k[0] in ('tolpred', 'qpred')):
+            return None
+        keys.append((a, k))
+    return keys or None
+
+
+class _CompoundFork:
+    """decides a compound predicate atom by atom through the job fork, then evaluates it"""
+    def __init__(self, fk):
+        self.fk = fk
+
+    def decide(self, cond, where):
+        from .alg import Rat as _R
+        if pred_atom(cond) is not None:
+            return self.fk.decide(cond, where)
+        mp = {}
+        for a, k in sorted(compound_pred(cond), key=lambda t: str(t[1])):
+            d = self.fk.decide(_R.atom(k), f"{where} [{k[1]} at {k[2] if len(k) > 2 else ''}]")
+            mp[a] = _R.const(1 if d else 0)
+        v = cond.subs(mp)
+        if not v.is_const():
+            raise AnalysisError(f"compound predicate did not reduce to a constant at {where}")
+        return v.const_value() != 0
 
 
 class Fork:
@@ -635,7 +673,7 @@ class Interp:
             self.events.append(('skipped-warn-branch', fr.module, st.lineno, ast.unparse(st.test)))
             return
         if fr.capture is None:
-            fk = self.fork if self.fork is not None else (JOB_FORK if is_tolpred(c) else None)
+            fk = self.fork if self.fork is not None else (_CompoundFork(JOB_FORK) if (JOB_FORK is not None and is_tolpred(c)) else None)
             if fk is not None:
                 d = fk.decide(c, f"{fr.module}.py:{st.lineno}: {ast.unparse(st.test)}")
                 self.exec_block(fr, st.body if d else st.orelse)
@@ -1097,7 +1135,7 @@ class Interp:
             return self.eval(fr, e.body)
         if c is False:
             return self.eval(fr, e.orelse)
-        fk = self.fork if self.fork is not None else (JOB_FORK if is_tolpred(c) else None)
+        fk = self.fork if self.fork is not None else (_CompoundFork(JOB_FORK) if (JOB_FORK is not None and is_tolpred(c)) else None)
         if fk is not None and fr.capture is None:
             d = fk.decide(c, f"{fr.module}.py:{e.lineno}: {ast.unparse(e.test)}")
             return self.eval(fr, e.body if d else e.orelse)
